@@ -798,15 +798,16 @@ class ManifestRecursiveLoader:
                             new_mpath = mpath[:-len(compr)-1]
 
                         # do the rename!
+                        # (update the top-level name first, so that
+                        # the renamed file is signed as appropriate)
+                        if mpath == self.top_level_manifest_filename:
+                            self.top_level_manifest_filename = new_mpath
                         self.loaded_manifests[new_mpath] = m
                         self.save_manifest(new_mpath)
                         del self.loaded_manifests[mpath]
                         os.unlink(os.path.join(self.root_directory,
                                                mpath))
                         renamed_manifests[mpath] = new_mpath
-
-                        if mpath == self.top_level_manifest_filename:
-                            self.top_level_manifest_filename = new_mpath
 
         # now, discard all the Manifests whose entries we've updated
         self.updated_manifests -= fixed_manifests
